@@ -356,6 +356,34 @@ func (c *Ctx) TagDispatch(pkgs ...string) []core.Ob {
 						}
 					}
 				}
+				// (a table indexed by the tag - a map of widths, an array of kinds - handles ids no
+				// comparison names: then only the ids that are no tag at all are known to be unknown)
+				tableDriven := false
+				for _, b := range fn.Blocks {
+					for _, in := range b.Instrs {
+						switch x := in.(type) {
+						case *ssa.Lookup:
+							if stripConv(x.Index) == ssa.Value(param) {
+								tableDriven = true
+							}
+						case *ssa.IndexAddr:
+							if stripConv(x.Index) == ssa.Value(param) {
+								tableDriven = true
+							}
+						case *ssa.Index:
+							if stripConv(x.Index) == ssa.Value(param) {
+								tableDriven = true
+							}
+						}
+					}
+				}
+				if tableDriven {
+					// whether an id is in the table is a fact about data, which the case split cannot see
+					d.Armed = false
+					d.Got = "the method looks its tag parameter up in a table: which ids it handles is not decided from the flow graph (not judged)"
+					obs = append(obs, d)
+					continue
+				}
 				for v := int64(0); v <= 12; v++ {
 					if !handled[v] {
 						unknown = append(unknown, v)
